@@ -3,13 +3,25 @@ C36 — the Markdown formatter preserves meaning and is idempotent: theorems
 over the model of pkg/md/fmt.go (lean/ElvModel/C36/Model.lean).
 
 Level: PARTIAL.  Proved: the local decisions that make code blocks, code spans
-and reflowed paragraphs round-trip.  Not proved (stated as `…_full`): the
-whole-formatter laws and the soundness of text escaping against the C35
-reference parser; those are sampled by the correspondence/oracle run.
+and reflowed paragraphs round-trip; soundness of text escaping against the C35
+reference parser on a byte class (`C36_escape_inline_sound`,
+`C36_escape_sound_partial`) with evaluated boundary witnesses; the agreement of
+formatter and parser on zero-padded ordered-list-marker lookalikes
+(`C36_ordered_lookalike_escaped`).  Not proved (stated as `…_full`): the
+whole-formatter laws, escape soundness in full generality and the reflow
+read-back; those are sampled by the correspondence/oracle run.
 -/
 import ElvModel.C36.Model
 import ElvModel.C35.RefHtml
 import ElvProofs.C36.Lemmas
+import ElvProofs.C36.Block
+import ElvProofs.C36.Boundary
+import ElvProofs.C36.Ordered
+import ElvProofs.C36.Reflow
+import ElvProofs.C36.ReflowRead
+import ElvProofs.C36.ReflowBlock
+import ElvProofs.C36.FirstByte
+import ElvProofs.C36.Digit
 open C36 C35 Go
 
 /-! ## The property at full strength (not proved) -/
@@ -20,11 +32,426 @@ def C36_full (fmt render : Bytes → Bytes) (supported : Bytes → Prop) : Prop 
   ∀ d, supported d → render (fmt d) = render d ∧ fmt (fmt d) = fmt d
 
 /-- soundness of text escaping against the C35 reference: a text node `s`
-written by the formatter as a paragraph reads back as exactly that text. -/
+written by the formatter as a paragraph reads back as exactly that text.
+PROVED for: every non-empty `s` over printable ASCII other than `_` and `&`
+whose first and last bytes are not spaces (`C36_escape_sound_ascii`; stages:
+`C36_escape_sound_partial`, `C36_escape_sound_marker_first`,
+`C36_escape_sound_partial_nondigit`).
+REMAINING cases (executed per `esc` op, no counterexample found):
+ (b) `s` starting/ending with SP (or tab): written `&#32;`/`&Tab;`; needs the
+     `&`-token case of `scan` for these two entities (`parseEntity` gives
+     `.char 32 5` / `.char 9 5`) and `scan_escA` with a tail;
+ (c) `&`: `charRefLen (& :: t) = 0 ↔ parseEntity t = .none` up to the
+     `nonEntities`/unknown names, then `&` unescaped is a text token and `\\&` too;
+ (d) `_`: `isWord prev ∧ isWord next` ⇒ `flanking` gives `(false, false)`, a
+     non-closing delimiter item (`resolveEmph_noclosers` already covers it);
+     needs `prev`/next-rune tracking in the lock step;
+ (e) non-ASCII runes (multi-byte text tokens) and U+00A0 → `&nbsp;`. -/
 def C36_escape_sound_full : Prop :=
   ∀ (s out : Bytes), s ≠ [] → validUtf8 s = true → ¬ s.contains NL →
     fmtTextParagraph goStdU s = .ok out → inSubset stdU out = true →
     render stdU true out = some (bs "<p>" ++ escHtml s ++ bs "</p>\n")
+
+/-! ## Soundness of text escaping against the C35 reference (proved on a byte class) -/
+
+/-- INLINE LEVEL.  For every text `s` over the class `isEscSpB` — printable
+ASCII (0x20 … 0x7E) other than `_` and `&`, i.e. letters, digits, spaces and
+all punctuation including the always-backslashed `[ ] * \` \\ <` — the escaped
+text is `s` with a backslash before each of `[ ] * \` \\ <` (`escA`), and the C35
+reference tokenizer + emphasis resolution + text merging reads it back as the
+single text node `s` (nothing for the empty text).  Any `GoU`, any `UClass`. -/
+theorem C36_escape_inline_sound (G : GoU) (U : UClass) (s : Bytes)
+    (h : ∀ b ∈ s, isEscSpB b = true) :
+    escapeText G s = escA s ∧
+    parseInlines U (escapeText G s) = some (if s = [] then [] else [Inl.text s]) := by
+  rw [escapeText_class G s h]
+  exact ⟨rfl, parseInlines_escA U s h⟩
+
+example : escapeText goStdU [0x61, 0x2A, 0x20, 0x5B, 0x21] = [0x61, 0x5C, 0x2A, 0x20, 0x5C, 0x5B, 0x21] ∧
+    parseInlines stdU [0x61, 0x5C, 0x2A, 0x20, 0x5C, 0x5B, 0x21] = some [Inl.text [0x61, 0x2A, 0x20, 0x5B, 0x21]] :=
+  C36_escape_inline_sound goStdU stdU [0x61, 0x2A, 0x20, 0x5B, 0x21] (by decide)
+
+/-- emphasis resolution of the reference is the identity on item lists
+without closing delimiter runs (in particular on text nodes) -/
+theorem C36_resolveEmph_nodes (ts : List Bytes) :
+    resolveEmph (ts.map mkT) = some (ts.map Inl.text) := resolveEmph_nodes ts
+
+/-- text merging of the reference concatenates a list of text nodes -/
+theorem C36_mergeText_texts (fuel : Nat) (ts : List Bytes) :
+    mergeText (fuel + 1) (ts.map Inl.text) = if ts.flatten = [] then [] else [Inl.text ts.flatten] :=
+  mergeText_texts fuel ts
+
+example : mergeText 1 ([[0x61], [], [0x62]].map Inl.text) = [Inl.text [0x61, 0x62]] := by
+  rw [C36_mergeText_texts]; rfl
+
+/-- BLOCK LEVEL, the proved part of `C36_escape_sound_full`.  Hypothesis class:
+`s` is non-empty, every byte is in `isEscSpB` (printable ASCII other than `_`
+and `&`), the first byte is in `isGoodFirstB` (not a space and not one of
+`- + > # ~` or a digit: the written line then starts with a byte that opens no
+block, possibly the backslash of an escaped `[ ] * \` \\ <`), and the last byte
+is not a space.  Then the formatter writes exactly `escA s` followed by NL
+(start/end-of-line escaping change nothing) and the C35 reference renders that
+document as one paragraph containing exactly the text `s`.  The hypotheses
+`validUtf8`, `¬ contains NL` of the full statement follow from the class and
+`inSubset out` is NOT needed on it.
+
+Gap to `C36_escape_sound_full`: texts containing `_`, `&`, non-ASCII runes
+(U+00A0 → `&nbsp;`), a leading or trailing space/tab (`&#32;`, `&Tab;`), and
+texts whose first byte is `- + > # ~` or a digit (where `escapeStartOfLine`
+has to agree with the reference's list/heading/fence/thematic-break rules);
+those are executed per `esc` op (model and real code), not proved. -/
+theorem C36_escape_sound_partial (G : GoU) (U : UClass) (s out : Bytes)
+    (hcls : ∀ b ∈ s, isEscSpB b = true)
+    (hfirst : ∀ b, s.head? = some b → isGoodFirstB b = true)
+    (hlast : ∀ e, s.getLast? = some e → isEscB e = true)
+    (hne : s ≠ [])
+    (hfmt : fmtTextParagraph G s = .ok out) :
+    out = escA s ++ [NL] ∧
+    render U true out = some (bs "<p>" ++ escHtml s ++ bs "</p>\n") := by
+  cases s with
+  | nil => exact absurd rfl hne
+  | cons b0 t =>
+    obtain ⟨h1, h2⟩ := escape_sound_class G U b0 t hcls (hfirst b0 rfl) hlast
+    rw [h1] at hfmt
+    injection hfmt with hfmt
+    subst hfmt
+    exact ⟨rfl, h2⟩
+
+/-- WIDENED first byte: the text starts with a block-marker lookalike `-`, `+`,
+`>`, `#` or `~`.  `escapeStartOfLine … true true` either puts a backslash in
+front (`\\- a`, `\\-`, `\\---`, `\\- - -`, `\\+ a`, `\\>…`, `\\# a`, `\\#`, `\\~~~…`) —
+the reference then reads `\\c` as the text `c` — or deliberately leaves the
+line alone (`-a`, `--`, `+a`, `#a`, `#######`, `~~`, `~a`), and in exactly those
+cases the reference's `listMarker` / `atxHeading` / `fenceOpen` /
+`isThematicBreak` / block quote all fail on the line (`SolOutcome`, proved per
+byte: `sol_dash`, `sol_plus`, `sol_gt`, `sol_hash`, `sol_tilde`).  Either way
+the written paragraph renders as `<p>s</p>`.  Rest of `s` over `isEscSpB`,
+last byte not a space; `inSubset` not needed. -/
+theorem C36_escape_sound_marker_first (G : GoU) (U : UClass) (b0 : UInt8) (t : Bytes)
+    (hb0 : b0 = 0x2D ∨ b0 = 0x2B ∨ b0 = 0x3E ∨ b0 = 0x23 ∨ b0 = 0x7E)
+    (hcls : ∀ b ∈ t, isEscSpB b = true)
+    (hlast : ∀ e, (b0 :: t).getLast? = some e → isEscB e = true) :
+    ∃ out, fmtTextParagraph G (b0 :: t) = .ok out ∧
+      render U true out = some (bs "<p>" ++ escHtml (b0 :: t) ++ bs "</p>\n") :=
+  escape_sound_five G U b0 t hb0 hcls hlast
+
+/-- `C36_escape_sound_partial` and `C36_escape_sound_marker_first` together:
+every non-empty text over `isEscSpB` (printable ASCII other than `_`, `&`)
+whose first byte is neither a space nor a DIGIT and whose last byte is not a
+space is written as a paragraph that the reference renders as `<p>s</p>`. -/
+theorem C36_escape_sound_partial_nondigit (G : GoU) (U : UClass) (s : Bytes)
+    (hcls : ∀ b ∈ s, isEscSpB b = true)
+    (hfirst : ∀ b, s.head? = some b → isEscB b = true ∧ isDigitB b = false)
+    (hlast : ∀ e, s.getLast? = some e → isEscB e = true)
+    (hne : s ≠ []) :
+    ∃ out, fmtTextParagraph G s = .ok out ∧
+      render U true out = some (bs "<p>" ++ escHtml s ++ bs "</p>\n") := by
+  cases s with
+  | nil => exact absurd rfl hne
+  | cons b0 t =>
+    obtain ⟨h1, h2⟩ := hfirst b0 rfl
+    cases hg : isGoodFirstB b0 with
+    | true =>
+      obtain ⟨h3, h4⟩ := escape_sound_class G U b0 t hcls hg hlast
+      exact ⟨_, h3, h4⟩
+    | false =>
+      exact escape_sound_five G U b0 t (marker_first_facts b0 h1 h2 hg)
+        (fun b hb => hcls b (List.mem_cons_of_mem _ hb)) hlast
+
+-- non-vacuity: `- a` (escaped), `--` (left alone), `#a`, `####### a`, `~~`
+example : ∃ out, fmtTextParagraph goStdU [0x2D, 0x2D] = .ok out ∧
+    render stdU true out = some (bs "<p>" ++ escHtml [0x2D, 0x2D] ++ bs "</p>\n") :=
+  C36_escape_sound_partial_nondigit goStdU stdU [0x2D, 0x2D] (by decide) (by decide) (by decide) (by simp)
+
+/-- ESCAPE SOUNDNESS FOR PRINTABLE ASCII (without `_`, `&`): every non-empty
+text over `isEscSpB` whose first and last bytes are not spaces is written as a
+paragraph that the C35 reference renders as `<p>s</p>` — no restriction on the
+first byte any more.  New case: a DIGIT first.  With `ds` the leading digits,
+`escapeStartOfLine … true true` writes `ds\\.…` / `ds\\)…` iff 1–9 digits are
+followed by `.`/`)` and then end of line or SP/tab (`esol_digits`); in that
+case the reference's `listMarker` fails on the backslash and the line scans as
+digits, `\\p` → `p`, rest (`parseInlines_digits_bsl`); in every other case the
+line is unchanged and `listMarker` is `none` by the same test
+(`listMarker_digits`).  `inSubset` not needed. -/
+theorem C36_escape_sound_ascii (G : GoU) (U : UClass) (s : Bytes)
+    (hcls : ∀ b ∈ s, isEscSpB b = true)
+    (hfirst : ∀ b, s.head? = some b → isEscB b = true)
+    (hlast : ∀ e, s.getLast? = some e → isEscB e = true)
+    (hne : s ≠ []) :
+    ∃ out, fmtTextParagraph G s = .ok out ∧
+      render U true out = some (bs "<p>" ++ escHtml s ++ bs "</p>\n") := by
+  cases s with
+  | nil => exact absurd rfl hne
+  | cons b0 t =>
+    cases hd : isDigitB b0 with
+    | true => exact escape_sound_digit G U (b0 :: t) b0 hcls rfl hd hlast
+    | false =>
+      exact C36_escape_sound_partial_nondigit G U (b0 :: t) hcls
+        (fun b hb => by simp at hb; subst hb; exact ⟨hfirst _ rfl, hd⟩) hlast hne
+
+/-- … as an instance of `C36_escape_sound_full` -/
+theorem C36_escape_sound_ascii_instance (s out : Bytes)
+    (hcls : ∀ b ∈ s, isEscSpB b = true)
+    (hfirst : ∀ b, s.head? = some b → isEscB b = true)
+    (hlast : ∀ e, s.getLast? = some e → isEscB e = true) :
+    s ≠ [] → validUtf8 s = true → ¬ s.contains NL →
+    fmtTextParagraph goStdU s = .ok out → inSubset stdU out = true →
+    render stdU true out = some (bs "<p>" ++ escHtml s ++ bs "</p>\n") := by
+  intro hne _ _ hfmt _
+  obtain ⟨o, h1, h2⟩ := C36_escape_sound_ascii goStdU stdU s hcls hfirst hlast hne
+  rw [h1] at hfmt
+  injection hfmt with hfmt
+  subst hfmt
+  exact h2
+
+-- non-vacuity: `1. a` (written `1\. a`), `01)`, `1.a`, `1234567890. a` satisfy the hypotheses
+example : ∃ out, fmtTextParagraph goStdU [0x31, 0x2E, 0x20, 0x61] = .ok out ∧
+    render stdU true out = some (bs "<p>" ++ escHtml [0x31, 0x2E, 0x20, 0x61] ++ bs "</p>\n") :=
+  C36_escape_sound_ascii goStdU stdU [0x31, 0x2E, 0x20, 0x61] (by decide) (by decide) (by decide) (by simp)
+
+/-- the instance of `C36_escape_sound_full` that is proved -/
+theorem C36_escape_sound_on_class (s out : Bytes)
+    (hcls : ∀ b ∈ s, isEscSpB b = true)
+    (hfirst : ∀ b, s.head? = some b → isGoodFirstB b = true)
+    (hlast : ∀ e, s.getLast? = some e → isEscB e = true) :
+    s ≠ [] → validUtf8 s = true → ¬ s.contains NL →
+    fmtTextParagraph goStdU s = .ok out → inSubset stdU out = true →
+    render stdU true out = some (bs "<p>" ++ escHtml s ++ bs "</p>\n") :=
+  fun hne _ _ hfmt _ => (C36_escape_sound_partial goStdU stdU s out hcls hfirst hlast hne hfmt).2
+
+-- non-vacuity: "a*b [c] <d" satisfies the hypotheses
+example : fmtTextParagraph goStdU [0x61, 0x2A, 0x62, 0x20, 0x5B, 0x63, 0x5D, 0x20, 0x3C, 0x64] =
+      .ok (escA [0x61, 0x2A, 0x62, 0x20, 0x5B, 0x63, 0x5D, 0x20, 0x3C, 0x64] ++ [NL]) ∧
+    render stdU true (escA [0x61, 0x2A, 0x62, 0x20, 0x5B, 0x63, 0x5D, 0x20, 0x3C, 0x64] ++ [NL]) =
+      some (bs "<p>" ++ escHtml [0x61, 0x2A, 0x62, 0x20, 0x5B, 0x63, 0x5D, 0x20, 0x3C, 0x64] ++ bs "</p>\n") :=
+  escape_sound_class goStdU stdU 0x61 [0x2A, 0x62, 0x20, 0x5B, 0x63, 0x5D, 0x20, 0x3C, 0x64]
+    (by decide) (by decide) (by decide)
+
+/-! ### Boundary of the proved class and of the hypotheses (evaluation on witnesses) -/
+
+/-- BOUNDARY, hypothesis `¬ s.contains NL`: without it the statement is false.
+For `s = "a\n\nb"` all other hypotheses hold (non-empty, valid UTF-8, the
+formatter succeeds, the output is in the reference's subset) but the output
+`a\n\nb\n` is two paragraphs. -/
+theorem C36_escape_unsound_with_newline :
+    ∃ s out : Bytes, s ≠ [] ∧ validUtf8 s = true ∧ fmtTextParagraph goStdU s = .ok out ∧
+      inSubset stdU out = true ∧
+      render stdU true out = some (bs "<p>a</p>\n<p>b</p>\n") ∧
+      render stdU true out ≠ some (bs "<p>" ++ escHtml s ++ bs "</p>\n") :=
+  ⟨[0x61, 0x0A, 0x0A, 0x62], [0x61, 0x0A, 0x0A, 0x62, 0x0A], by decide, by decide +kernel, by decide +kernel,
+   by decide +kernel, by decide +kernel, by decide +kernel⟩
+
+/-- … and so is `"a\n# b"` (the second line becomes a heading) -/
+theorem C36_escape_unsound_with_newline_heading :
+    soundOn [0x61, 0x0A, 0x23, 0x20, 0x62] = false := by decide +kernel
+
+/-- BOUNDARY of the proved class `C36_escape_sound_partial`: outside it the
+first conclusion (`out = escA s ++ [NL]`) fails — the start/end-of-line
+escaping or the context-dependent `_`/`&`/U+00A0 rules change the text — one
+witness per dropped hypothesis: first byte (`- a`), last byte (`a `), byte
+class (`_a`, `&amp;`, U+00A0). -/
+theorem C36_escape_boundary_class_is_tight :
+    fmtTextParagraph goStdU [0x2D, 0x20, 0x61] = .ok [0x5C, 0x2D, 0x20, 0x61, 0x0A] ∧
+    fmtTextParagraph goStdU [0x61, 0x20] = .ok [0x61, 0x26, 0x23, 0x33, 0x32, 0x3B, 0x0A] ∧
+    fmtTextParagraph goStdU [0x5F, 0x61] = .ok [0x5C, 0x5F, 0x61, 0x0A] ∧
+    fmtTextParagraph goStdU [0x26, 0x61, 0x6D, 0x70, 0x3B] = .ok [0x5C, 0x26, 0x61, 0x6D, 0x70, 0x3B, 0x0A] ∧
+    fmtTextParagraph goStdU [0xC2, 0xA0] = .ok [0x26, 0x6E, 0x62, 0x73, 0x70, 0x3B, 0x0A] := by
+  decide +kernel
+
+/-- … while the conclusion of `C36_escape_sound_full` (the reference reads the
+written paragraph back as the text) still HOLDS on every witness tried outside
+the class, WITHOUT using `inSubset`: list/heading/fence/quote/thematic-break
+lookalikes, zero-padded ordered markers, `_` in all positions, entities known
+and unknown, leading/trailing spaces, tab, U+00A0, non-ASCII letters, and even
+a single interior newline (a soft break renders as the newline itself). -/
+theorem C36_escape_boundary_sound_outside_class :
+    ∀ s ∈ ([[0x2D, 0x20, 0x61],
+     [0x2D],
+     [0x2B],
+     [0x31, 0x2E, 0x20, 0x61],
+     [0x31, 0x2E],
+     [0x30, 0x31, 0x2E, 0x20, 0x61],
+     [0x32, 0x29, 0x20, 0x61],
+     [0x23, 0x20, 0x61],
+     [0x23],
+     [0x23, 0x23, 0x23, 0x23, 0x23, 0x23, 0x23, 0x20, 0x61],
+     [0x7E, 0x7E, 0x7E],
+     [0x3E, 0x20, 0x61],
+     [0x5F, 0x61],
+     [0x61, 0x5F, 0x62],
+     [0x5F, 0x61, 0x5F],
+     [0x61, 0x5F, 0x5F, 0x62],
+     [0x26, 0x61, 0x6D, 0x70, 0x3B],
+     [0x26, 0x23, 0x33, 0x32, 0x3B],
+     [0x26, 0x66, 0x6F, 0x6F, 0x3B],
+     [0x61, 0x26, 0x62],
+     [0x61, 0x20],
+     [0x20, 0x61],
+     [0x20, 0x20, 0x61, 0x20, 0x20],
+     [0xC2, 0xA0],
+     [0xC3, 0xA9, 0x5F, 0xC3, 0xA9],
+     [0x2D, 0x2D, 0x2D],
+     [0x2D, 0x20, 0x2D, 0x20, 0x2D],
+     [0x2D, 0x2D],
+     [0x61, 0x09, 0x62],
+     [0x09],
+     [0x3D],
+     [0x21, 0x5B, 0x61, 0x5D, 0x28, 0x62, 0x29],
+     [0x61, 0x0A, 0x62]] : List Bytes),
+      soundOn s = true := by
+  decide +kernel
+
+/-- every single rune of the boundary alphabet (ASCII metacharacters, tab,
+U+0001, DEL, U+0085, U+FFFD, U+2028, U+2003, U+00A0, é, FF, CR) is sound even
+though several of them put the output outside `inSubset` -/
+theorem C36_escape_boundary_single_runes : ∀ s ∈ boundaryStrings 1, soundOn s = true := by
+  decide +kernel
+
+/-! ## Ordered-list-marker lookalikes with leading zeros -/
+
+/-- `strconv.Atoi(ds) == 1` (what the parser tests, `decVal`) iff
+`strings.TrimLeft(ds, "0") == "1"` (what the formatter tests), for digit strings -/
+theorem C36_trimLeftZeros_eq_one_iff (ds : Bytes) (hd : ∀ b ∈ ds, isDigitB b = true) :
+    decVal ds = 1 ↔ ds.dropWhile (· == 0x30) = [0x31] :=
+  trimLeftZeros_eq_one_iff ds hd
+
+example : decVal [0x30, 0x30, 0x31] = 1 ∧ decVal [0x31, 0x30] ≠ 1 ∧ decVal [0x30, 0x32] ≠ 1 := by decide
+
+/-- On a continuation line of a paragraph (`startOfParagraph = false`) a line
+starting with 1–9 digits, `.` or `)`, and then end of line or a space/tab gets
+a backslash before the punctuation IF AND ONLY IF the number is 1 as the
+parser reads it (`decVal` = Go `strconv.Atoi`), leading zeros included.
+Consequences against the C35 model of `parseStartingMarkers`: the escaped line
+is not an item marker, and the unescaped line (number ≠ 1) opens no container
+when it continues a paragraph (`m.start != 1 && !newParagraph`) — either way a
+continuation line stays a continuation line.  (The seeded change
+`number == "1"` breaks the "if" direction for `01.`, `001)`.) -/
+theorem C36_ordered_lookalike_escaped (sb ds tail : Bytes) (p : UInt8)
+    (hd : ∀ b ∈ ds, isDigitB b = true) (h1 : 1 ≤ ds.length) (h9 : ds.length ≤ 9)
+    (hp : p = 0x2E ∨ p = 0x29) (ht : tail = [] ∨ startsWithSpaceOrTab tail = true) :
+    (decVal ds = 1 →
+      escapeStartOfLine sb (ds ++ p :: tail) false true = .ok (ds ++ 0x5C :: p :: tail) ∧
+      itemPrefix (ds ++ 0x5C :: p :: tail) = none ∧ itemMarkerRe (ds ++ 0x5C :: p :: tail) = none ∧
+      itemMarkerBlankRe (ds ++ 0x5C :: p :: tail) = none) ∧
+    (decVal ds ≠ 1 →
+      escapeStartOfLine sb (ds ++ p :: tail) false true = .ok (ds ++ p :: tail) ∧
+      ∀ fuel, startingMarkers (fuel + 1) (ds ++ p :: tail) false [] = some (ds ++ p :: tail, [])) := by
+  have h := escapeStartOfLine_ordered sb ds tail p hd h1 h9 hp ht
+  constructor
+  · intro hv
+    rw [if_pos hv] at h
+    exact ⟨h, escaped_not_item ds tail p hd h1 h9⟩
+  · intro hv
+    rw [if_neg hv] at h
+    exact ⟨h, unescaped_not_interrupting ds tail p hd h1 h9 hp hv⟩
+
+-- `01. bar`, `001) bar`, `1.` get the backslash; `2. bar`, `02. bar`, `10. bar` do not
+example :
+    escapeStartOfLine [] [0x30, 0x31, 0x2E, 0x20, 0x62, 0x61, 0x72] false true = .ok [0x30, 0x31, 0x5C, 0x2E, 0x20, 0x62, 0x61, 0x72] ∧
+    escapeStartOfLine [] [0x30, 0x30, 0x31, 0x29, 0x20, 0x62, 0x61, 0x72] false true = .ok [0x30, 0x30, 0x31, 0x5C, 0x29, 0x20, 0x62, 0x61, 0x72] ∧
+    escapeStartOfLine [] [0x31, 0x2E] false true = .ok [0x31, 0x5C, 0x2E] ∧
+    escapeStartOfLine [] [0x32, 0x2E, 0x20, 0x62, 0x61, 0x72] false true = .ok [0x32, 0x2E, 0x20, 0x62, 0x61, 0x72] ∧
+    escapeStartOfLine [] [0x30, 0x32, 0x2E, 0x20, 0x62, 0x61, 0x72] false true = .ok [0x30, 0x32, 0x2E, 0x20, 0x62, 0x61, 0x72] ∧
+    escapeStartOfLine [] [0x31, 0x30, 0x2E, 0x20, 0x62, 0x61, 0x72] false true = .ok [0x31, 0x30, 0x2E, 0x20, 0x62, 0x61, 0x72] ∧
+    startingMarkers 8 [0x30, 0x32, 0x2E, 0x20, 0x62, 0x61, 0x72] false [] = some ([0x30, 0x32, 0x2E, 0x20, 0x62, 0x61, 0x72], []) ∧
+    (startingMarkers 8 [0x30, 0x31, 0x2E, 0x20, 0x62, 0x61, 0x72] false []).map (·.2) = some [Cont.ordered 0x2E 1 4] := by
+  decide +kernel
+
+/-! ## Reflow preserves meaning for paragraphs of plain words (proved) -/
+
+/-- Reflow of a paragraph of plain words (non-empty, ASCII letters/digits) at
+any width: the formatter writes the breaker's lines, each joined by single
+spaces and terminated by NL, the lines concatenated are the words, and the C35
+reference reads the result back as ONE paragraph with soft breaks exactly at
+the line breaks — i.e. replacing NL by SP gives the rendering of the
+unformatted paragraph (`C36_reflow_preserves_plain_words_general`, last
+conjunct). -/
+def C36_reflow_preserves_plain_words_full : Prop :=
+  ∀ (w : Int) (ws : List Bytes), ws ≠ [] → (∀ x ∈ ws, x ≠ [] ∧ ∀ b ∈ x, isAlnumB b = true) →
+    ∃ lines : List (List Bytes),
+      fmtTextReflow goStdU w (joinSp ws) = .ok (lines.flatMap (fun l => joinSp l ++ [NL])) ∧
+      lines.flatten = ws ∧ (∀ l ∈ lines, l ≠ []) ∧
+      render stdU true (lines.flatMap (fun l => joinSp l ++ [NL])) =
+        some (bs "<p>" ++ joinNL (lines.map joinSp) ++ bs "</p>\n")
+
+/-- the statement for any `GoU` / `UClass`, together with the rendering of the
+UNFORMATTED paragraph: `render (fmt d)` is `<p>` + the lines joined by NL +
+`</p>`, `render d` is `<p>` + the words joined by SP + `</p>`, and the lines
+concatenated are the words — the two renderings differ only in soft break ↔
+space. -/
+theorem C36_reflow_preserves_plain_words_general (G : GoU) (U : UClass) (w : Int) (ws : List Bytes)
+    (hne : ws ≠ []) (h : ∀ x ∈ ws, PlainWord x) :
+    ∃ lines : List (List Bytes),
+      fmtTextReflow G w (joinSp ws) = .ok (lines.flatMap (fun l => joinSp l ++ [NL])) ∧
+      lines.flatten = ws ∧ (∀ l ∈ lines, l ≠ []) ∧
+      render U true (lines.flatMap (fun l => joinSp l ++ [NL])) =
+        some (bs "<p>" ++ joinNL (lines.map joinSp) ++ bs "</p>\n") ∧
+      render U true (joinSp ws ++ [NL]) = some (bs "<p>" ++ joinSp ws ++ bs "</p>\n") := by
+  obtain ⟨lines, h1, h2, h3, h4⟩ := reflow_preserves_plain_words G U w ws hne h
+  refine ⟨lines, h1, h2, h3, h4, ?_⟩
+  have := render_plain_lines U [joinSp ws] (by simp)
+    (by intro L hL; simp at hL; subst hL; exact plainLine_joinSp ws hne h)
+    (by simpa using parseInlines_lines U [ws] (by simp) (by intro l hl; simp at hl; subst hl; exact ⟨hne, h⟩))
+  simpa [joinNL] using this
+
+theorem C36_reflow_preserves_plain_words : C36_reflow_preserves_plain_words_full := by
+  intro w ws hne h
+  obtain ⟨lines, h1, h2, h3, h4⟩ := reflow_preserves_plain_words goStdU stdU w ws hne h
+  exact ⟨lines, h1, h2, h3, h4⟩
+
+/-- MODEL SIDE of reflow for plain words (`PlainWord` = non-empty, ASCII
+letters/digits only), any `GoU`, any width: `escapeText` is the identity on
+`joinSp ws`, `splitSpans` recovers `ws`, `escapeStartOfLine` changes no line
+(a digit-initial line is never followed by `.`/`)`), so the formatter writes
+exactly the breaker's lines, each joined by single spaces and terminated by
+NL; the lines concatenated are the words, no line is empty, and every line
+consists of plain words. -/
+theorem C36_reflow_plain_words_written (G : GoU) (w : Int) (ws : List Bytes) (hne : ws ≠ [])
+    (h : ∀ x ∈ ws, PlainWord x) :
+    ∃ lines : List (List Bytes),
+      fmtTextReflow G w (joinSp ws) = .ok (lines.flatMap (fun l => joinSp l ++ [NL])) ∧
+      lines.flatten = ws ∧ (∀ l ∈ lines, l ≠ [] ∧ ∀ x ∈ l, PlainWord x) ∧ lines ≠ [] :=
+  fmtTextReflow_plain G w ws hne h
+
+example : ∀ x ∈ [[0x61, 0x61], [0x31, 0x32], [0x63]], PlainWord x := by
+  intro x hx
+  simp only [List.mem_cons, List.not_mem_nil, or_false] at hx
+  rcases hx with h | h | h <;> subst h <;> exact ⟨by simp, by decide⟩
+
+/-- INLINE READ-BACK of reflow for plain words, any `GoU`/`UClass`/width: the
+formatter writes the breaker's lines (as in `C36_reflow_plain_words_written`),
+and the C35 reference tokenizer + emphasis resolution + text merging reads the
+paragraph text `joinNL (lines.map joinSp)` as ONE TEXT PER LINE with a
+`.softbreak` exactly at each line end (`lineInls`), while the unformatted
+paragraph `joinSp ws` reads as the single text `joinSp ws`: the formatted
+paragraph is the unformatted one with some spaces turned into soft breaks
+(`lines.flatten = ws`), nothing else. -/
+theorem C36_reflow_plain_words_inline (G : GoU) (U : UClass) (w : Int) (ws : List Bytes)
+    (hne : ws ≠ []) (h : ∀ x ∈ ws, PlainWord x) :
+    ∃ lines : List (List Bytes),
+      fmtTextReflow G w (joinSp ws) = .ok (lines.flatMap (fun l => joinSp l ++ [NL])) ∧
+      lines.flatten = ws ∧ (∀ l ∈ lines, l ≠ []) ∧
+      parseInlines U (joinNL (lines.map joinSp)) = some (lineInls (lines.map joinSp)) ∧
+      parseInlines U (joinSp ws) = some [Inl.text (joinSp ws)] := by
+  obtain ⟨lines, h1, h2, h3, h4⟩ := fmtTextReflow_plain G w ws hne h
+  refine ⟨lines, h1, h2, fun l hl => (h3 l hl).1, parseInlines_lines U lines h4 h3, ?_⟩
+  have hb := joinSp_bytes ws h
+  have := parseInlines_escA U (joinSp ws) (fun b hb' => (alnum_facts b (hb b hb')).1)
+  rw [escA_id _ (fun b hb' => (alnum_facts b (hb b hb')).2.1)] at this
+  obtain ⟨c, t, he, _⟩ := joinSp_head ws hne h
+  rw [this, he]
+  simp
+
+example : lineInls [[0x61, 0x61, 0x20, 0x62, 0x62], [0x63]] =
+    [Inl.text [0x61, 0x61, 0x20, 0x62, 0x62], Inl.softbreak, Inl.text [0x63]] := rfl
+
+/-- the statement evaluated on `aa bb c` at width 5: lines `aa bb` / `c` -/
+theorem C36_reflow_plain_words_instance :
+    fmtTextReflow goStdU 5 [0x61, 0x61, 0x20, 0x62, 0x62, 0x20, 0x63] =
+      .ok ([[[0x61, 0x61], [0x62, 0x62]], [[0x63]]].flatMap (fun l => joinSp l ++ [NL])) ∧
+    render stdU true ([[[0x61, 0x61], [0x62, 0x62]], [[0x63]]].flatMap (fun l => joinSp l ++ [NL])) =
+      some (bs "<p>" ++ joinNL ([[[0x61, 0x61], [0x62, 0x62]], [[0x63]]].map joinSp) ++ bs "</p>\n") := by
+  decide +kernel
 
 /-! ## Code fences -/
 
